@@ -89,15 +89,22 @@ def generic_templates():
         "import typing\n"
         "T = typing.TypeVar('T')\n"
         "class GN(typing.NamedTuple, typing.Generic[T]):\n    x: T\n    xs: typing.List[T]\n"
-        "class GT(typing.TypedDict, typing.Generic[T]):\n    x: T\n    xs: typing.Dict[str, typing.List[T]]\n",
+        "class GT(typing.TypedDict, typing.Generic[T]):\n    x: T\n    xs: typing.Dict[str, typing.List[T]]\n"
+        "import dataclasses\n"
+        "S = typing.TypeVar('S')\n"
+        "@dataclasses.dataclass\nclass GBase(typing.Generic[T, S]):\n    x: T\n    y: S\n"
+        "@dataclasses.dataclass\nclass GChild(GBase[S, T], typing.Generic[T, S]):\n    pass\n",
         "<c03 templates>", "exec", dont_inherit=True), m.__dict__)   # (exec of a string would inherit this module's __future__ flags)
     GN, GT = m.GN, m.GT
+    GChild = m.GChild
     d = datetime.date(2020, 1, 2)
     return {
         "generic NamedTuple, List[T] member, T=date": (GN[datetime.date], ["2020-01-02", ["2020-01-02"]], GN(d, [d])),
         "generic NamedTuple, List[T] member, T=List[int]": (GN[typing.List[int]], [["1"], [["2", 3]]], GN([1], [[2, 3]])),
         "generic TypedDict, Dict[str, List[T]] member, T=date": (GT[datetime.date], {"x": "2020-01-02", "xs": {"k": ["2020-01-02"]}}, {"x": d, "xs": {"k": [d]}}),
         "List of generic NamedTuple": (typing.List[GN[int]], [["1", ["2"]]], [GN(1, [2])]),
+        # GChild[int, str]: T=int, S=str -> GBase[str, int] -> x: str, y: int (the arguments follow Generic[T, S])
+        "generic dataclass re-ordering its parent's parameters": (GChild[int, str], {"x": "5", "y": "7"}, GChild(x="5", y=7)),
     }
 
 
